@@ -16,4 +16,42 @@ CHECKS = {
                  "Exhaustive inside the bound, sampled beyond it; this is the right level because the functions are pure and the space of small tuples is finite."),
         "note": "trusts the brute-force enumerators and DP count in vp/props/c13.py (they are cross-checked against each other); indices outside 0..N-1 are not part of the property",
     },
+    "C10": {
+        "technique": "exhaustive (n,k,relation,numbering,assignment) sweep + Hypothesis multi-request cases; SAT under assumptions vs integer arithmetic; unique-extension by blocking",
+        "text": ("combine_cnf_with_requests is run for every n<=8 (thorough 11), k<=n+4, EQ/LT/GT, three variable numberings, and the resulting "
+                 "clauses are solved under each of the 2^n input assignments: satisfiable iff popcount REL k, and then exactly one extension to the "
+                 "auxiliary variables. Hypothesis adds n<=40, arbitrary ids, k<=2n+2 and 1-3 simultaneous requests. Exhaustive inside the bound."),
+        "note": "trusts pycryptosat as SAT oracle and Python integer arithmetic; n>=1",
+    },
+    "C11": {
+        "technique": "Hypothesis recursive formula generator (+ atheris coverage-guided campaign in the thorough tier) against a truth-table evaluator; unique-extension SAT check for Tseitin variables",
+        "text": ("Random formulas over Not/And/Or/If/Iff with empty lists, negative literals and recurring subformulas are converted by all three "
+                 "converters; for all 32 assignments of the original variables the result is compared with an independent evaluator (Tseitin: exactly one "
+                 "extension over the reported fresh range iff true; naive: equivalent, no new variable; switching: exists-fresh equivalent). cnf_to_json is "
+                 "cross-checked on the Tseitin output. Sampled, not exhaustive."),
+        "note": "formula variables lie below next_variable; naive conversion only for <=10 leaves (exponential by design)",
+    },
+    "C12": {
+        "technique": "exhaustive width/saturation sweep + Hypothesis wider operands; SAT under assumptions vs integer sums; unique-extension by blocking",
+        "text": ("half/full/saturate adders, ripple_carry, ripple_saturate and pop_count are built on three variable numberings for every width up to the "
+                 "tier bound and solved under every input assignment: outputs decode to the arithmetic sum (saturating forms: exact below 2^(s-1), top bit "
+                 "set at or above it) and every non-input variable is forced. Exhaustive inside the bound; Hypothesis samples up to 40 inputs."),
+        "note": "operands of equal width and width <= saturate_at, as at every call site; low bits of a saturated result are not judged",
+    },
+    "C27": {
+        "technique": "Hypothesis clause-set/solution generator; strict DIMACS parser written from the format as round-trip oracle; recording stand-in for the solver; brute-force projected models for the iterate loop",
+        "text": ("For generated clause sets (gaps, repeated literals, support sizes across the 10-per-line boundary, optional cardinality request) the file "
+                 "the library writes is re-read by an independent strict parser: header counts, clause multiset, c ind lines; parse_cnf_file and the "
+                 "pycryptosat reader must recover the same; scripted solver assignments must round-trip through cryptominisat_solve, build_solution and "
+                 "sample_uniform; update_file must add exactly the negated support assignment (truth-table check) and sample_non_uniform's loop must return "
+                 "exactly the brute-force projected models. Sampled."),
+        "note": "support variables are 1..support and all occur in the formula; non-empty clauses; the external solvers themselves are trusted",
+    },
+    "C28": {
+        "technique": "Hypothesis clause/request generator; own OPB parser+evaluator; exhaustive assignment comparison against the SAT encoding (differential) and against arithmetic",
+        "text": ("For generated clause sets over <=8 variables with 0-3 EQ/LT/GT requests the OPB text is parsed by an independent pseudo-Boolean "
+                 "evaluator and compared, on every assignment, with satisfiability of combine_cnf_with_requests under that assignment and with the "
+                 "arithmetic meaning; blocking constraints of sample_ilp.update_file are checked on every support assignment. All assignments per case; cases sampled."),
+        "note": "Gurobi itself is not run; the property concerns the text",
+    },
 }
